@@ -26,7 +26,7 @@ ASSUMPTIONS = ['vf/xlref criterion semantics = the clauses of the statement', 'b
 HOST_SETTINGS = {'shards': lambda shards: [0, len(shards) - 1], 'env': {'VERIF_HOST_DECIMAL': '3'}}
 FLOORS = {'quick': {'evaluations': 8000, 'nontrivial': 3000, 'counters': {'clock_checks': 300}}, 'thorough': {'evaluations': 250000, 'nontrivial': 100000, 'counters': {'clock_checks': 2000}}}
 
-TEXTS = ['12345678901-1', 'acct 40702810500000012345', '1:99999999999999999999', 'apple', 'Apple', 'APPLE', 'pear', 'a.c', 'abc', 'a*b', 'a?c', '[x]', 'x+y', 'pine apple', 'ap',
+TEXTS = ['12345678901-1', 'acct 40702810500000012345', '1:99999999999999999999', 'Total\n2024', 'ap\nple', 'a\tb', 'apple', 'Apple', 'APPLE', 'pear', 'a.c', 'abc', 'a*b', 'a?c', '[x]', 'x+y', 'pine apple', 'ap',
          # tildes in cells: literal tildes are written ~~ in a pattern, and a wildcard after ~~ is a live wildcard again
          '~', '~a', 'v~x', '~*', 'a~b', '~~', 'v~', '~apple',
          # words a date parser takes for dates: month and weekday names are plain texts
@@ -104,7 +104,8 @@ def criterion(rng, col):
     if form < 0.56:
         return '"<>"&F2'
     pats = ['a*', '*e', '?pple', 'a?c', '*p*', 'A*', '*', '?*', 'a~*b', 'a~?c', '*.*', '[x]', 'x+y', 'a.c', '??', 'p*r', 'ap*e', '*apple', 'pine*',
-            '~~*', 'v~~?', '~~~*', '~~', 'a~~b', '*~~*', '~~?*', '~~~~*', 'v~~*', '~~?', '~*', '~~a*', '<>~~*', '=~~?']
+            '~~*', 'v~~?', '~~~*', '~~', 'a~~b', '*~~*', '~~?*', '~~~~*', 'v~~*', '~~?', '~*', '~~a*', '<>~~*', '=~~?',
+            'Total*', '*2024', 'total?2024', '<>*20??', 'ap*e', 'a?b']
     return f'"{rng.choice(pats)}"'
 
 
@@ -364,9 +365,50 @@ def run_clock(ctx, bi):
     r.sample({'clock_criteria': CLOCK_CRITS[:5], 'clocks': [str(c) for c in CLOCKS]})
 
 
+def run_rows(ctx, bi):
+    """the same functions over ranges that lie in a ROW (a month per column): criteria rows 1-2, the target in row 3, several aggregates
+    over the same rows in one formula and in cells that add each other up"""
+    r, rng = ctx.r, ctx.rng
+    n = 8
+    cells = {}
+    for j in range(1, n + 1):
+        L = wbspec.get_column_letter(j)
+        cells[f'{L}1'] = rng.choice([1, 2, 3, 3, 5, 0, -1, 2.5])
+        cells[f'{L}2'] = rng.choice(['apple', 'pear', 'Apple', 'plum', 'ap', 'x'])
+        cells[f'{L}3'] = rng.randrange(1, 60)
+    cells['J1'] = 2
+    cells['J2'] = 'apple'
+    crits1 = ['">2"', '"<=2"', '"<>3"', '3', '">="&J1', 'J1', '"<"&J1']
+    crits2 = ['"apple"', '"<>apple"', '"a*"', '"p*"', 'J2', '"?????"', '"<>"&J2']
+    forms = []
+    for i in range(26):
+        c1, c2 = rng.choice(crits1), rng.choice(crits2)
+        f = rng.choice(['SUMIFS(A3:H3,A1:H1,{c1})', 'SUMIFS(A3:H3,A2:H2,{c2})', 'SUMIFS(A3:H3,A1:H1,{c1},A2:H2,{c2})', 'AVERAGEIFS(A3:H3,A1:H1,{c1})', 'COUNTIFS(A1:H1,{c1})',
+                        'COUNTIFS(A1:H1,{c1},A2:H2,{c2})', 'SUMIF(A1:H1,{c1},A3:H3)', 'SUMIF(A2:H2,{c2},A3:H3)', 'SUMIF(A1:H1,{c1})',
+                        # the same target row twice in one evaluation
+                        'SUMIFS(A3:H3,A1:H1,{c1})+SUMIFS(A3:H3,A2:H2,{c2})', 'SUMIFS(A3:H3,A1:H1,">2")+SUMIFS(A3:H3,A1:H1,"<=2")', 'SUMIF(A1:H1,{c1},A3:H3)+SUM(A3:H3)',
+                        'IFERROR(AVERAGEIFS(A3:H3,A2:H2,{c2}),0)+IFERROR(AVERAGEIFS(A3:H3,A1:H1,{c1}),0)', 'SUMIFS(A3:H3,A2:H2,{c2})+MAX(A3:H3)',
+                        'SUMIFS(C3:C3,C1:C1,{c1})+C3', 'SUM(A3:H3)-SUMIFS(A3:H3,A1:H1,{c1})']).format(c1=c1, c2=c2)
+        a = f'L{i + 1}'
+        cells[a] = '=' + f
+        forms.append(a)
+    cells['M1'] = '=L1+L2'
+    cells['M2'] = '=L3+L4+L5'
+    forms += ['M1', 'M2']
+    vals = [[]]
+    for _ in range(4):
+        ov = [(0, f'{wbspec.get_column_letter(rng.randrange(1, n + 1))}{rng.choice([1, 3])}', rng.choice([0, 1, 2, 3, 7, 2.5, None])) for _ in range(4)]
+        ov.append((0, 'J1', rng.choice([1, 2, 3])))
+        ov.append((0, 'J2', rng.choice(['apple', 'pear', 'x'])))
+        vals.append(ov)
+    r.count('row_layout_books')
+    judge_book(ctx, ID, wbspec.spec(wbspec.sheet('S', cells)), [(0, a) for a in forms], vals, exact=False, name=f'rw{bi}', monitor='criteria-reference',
+               classify=classify, nontrivial=lambda case, outs: is_num(outs[0]) and outs[0] != 0)
+
+
 def _plan(tier, seed):
     n = 6 if tier == 'quick' else 160
-    return [{'k': k, 'n': n} for k in range(16)] + [{'dates': k, 'n': 2 if tier == 'quick' else 40} for k in range(4)] + [{'clock': k, 'n': 2 if tier == 'quick' else 12} for k in range(2)]
+    return [{'k': k, 'n': n} for k in range(16)] + [{'dates': k, 'n': 2 if tier == 'quick' else 40} for k in range(4)] + [{'clock': k, 'n': 2 if tier == 'quick' else 12} for k in range(2)] + [{'rows': k, 'n': 3 if tier == 'quick' else 40} for k in range(2)]
 
 
 def run_shard(shard, ctx):
@@ -375,6 +417,10 @@ def run_shard(shard, ctx):
         return run_mixed(ctx, ID, shard['n'])
     if 'replay' in shard:
         return replay_case(ctx, ID, shard['replay'], exact=False, classify=classify)
+    if 'rows' in shard:
+        for i in range(shard['n']):
+            run_rows(ctx, shard['rows'] * 1000 + i)
+        return
     if 'clock' in shard:
         for i in range(shard['n']):
             run_clock(ctx, shard['clock'] * 1000 + i)
